@@ -60,7 +60,17 @@ type RunCtx struct {
 	sample     any
 }
 
-const maxEvents = 600
+var maxEvents = 600
+
+func init() {
+	if os.Getenv("VERIF_VERBOSE") != "" {
+		maxEvents = 200000
+	}
+}
+
+// Verbose reports whether wire-level event logging was requested (debugging aid;
+// it only adds log lines, it never draws choices).
+func Verbose() bool { return maxEvents > 600 }
 
 func newRunCtx(seed uint64, tape *Tape, tier, scen string, params map[string]string) *RunCtx {
 	return &RunCtx{Tape: tape, Seed: seed, Tier: tier, Scenario: scen, Params: params,
@@ -444,6 +454,7 @@ type WorkerOut struct {
 	HarnessErrors []string          `json:"harness_errors"`
 	Rechecked     int               `json:"rechecked"`
 	RecheckDiffs  int               `json:"recheck_diffs"`
+	RecheckDiffSamples []string     `json:"recheck_diff_samples,omitempty"`
 	PerScenario   map[string]int    `json:"per_scenario"`
 	ReplayOutcome *ReplayOutcome    `json:"replay_outcome,omitempty"`
 }
@@ -543,6 +554,27 @@ func WorkerMain(t *testing.T) {
 			out.Rechecked++
 			if r2.TraceHash != r.TraceHash || r2.ByteHash != r.ByteHash {
 				out.RecheckDiffs++
+				if len(out.RecheckDiffSamples) < 3 {
+					d := fmt.Sprintf("scenario=%s seed=%d: ", scen, seed)
+					for k := 0; k < len(r.Events) || k < len(r2.Events); k++ {
+						var a, b string
+						if k < len(r.Events) {
+							a = r.Events[k]
+						}
+						if k < len(r2.Events) {
+							b = r2.Events[k]
+						}
+						if a != b {
+							lo := k - 6
+							if lo < 0 {
+								lo = 0
+							}
+							d += fmt.Sprintf("first difference at event %d:\n  context: %s\n  run1: %s\n  run2: %s", k, strings.Join(r.Events[lo:k], " | "), a, b)
+							break
+						}
+					}
+					out.RecheckDiffSamples = append(out.RecheckDiffSamples, d)
+				}
 			}
 		}
 		if r.Viol != nil {
